@@ -150,9 +150,11 @@ def run(p, report, tier):
            and isinstance(n.value.slice, ast.Name) and n.value.slice.id in pick_names]
     g1 = False
     for n in tr1:
-        for (s_, owner, field, idx) in tree.ancestors(n):
-            if isinstance(owner, ast.If) and field == "body" and "exclude_non_subsample" in ast.unparse(owner.test):
-                g1 = True
+        ifs = [(owner, field) for (s_, owner, field, idx) in tree.ancestors(n) if isinstance(owner, ast.If)]
+        # guarded by the row-removal test and by nothing else (in particular
+        # not by whether utilities were requested)
+        if len(ifs) == 1 and ifs[0][1] == "body" and "exclude_non_subsample" in ast.unparse(ifs[0][0].test):
+            g1 = True
     report.add("R20.2", ent, "picks translated through the restricting index array when rows were removed",
                f"{sw.file}:{sw.node.lineno}", bool(tr1) and g1,
                detail="picks = S[picks] under the exclude_non_subsample test" if (tr1 and g1) else
